@@ -153,7 +153,7 @@ def drive_tree(rec, root, kindname, rng, full_stops=True):
                 x.get_side(c)
         try:
             x.get_side(root if root is not x.left and root is not x.right else x)
-        except ValueError:
+        except (ValueError, RecursionError):
             pass
     if kindname == "expr":
         for order in ("preorder", "inorder", "postorder"):
@@ -356,6 +356,13 @@ def run(rec, cfg):
         big.append(W9.random_shape(rng, rng.randrange(10, cfg.scale(60, 200)), rng.choice([0.1, 0.3, 0.6])))
     if cfg.shard == 0:
         big += [W9.chain(300, "L"), W9.chain(300, "R"), W9.zigzag(300)]
+    # two-child spines 300-400 levels deep whose off-spine children are every shape of up to 3 nodes
+    # (a right-only or left-only node far below the start of the walk, inside a RIGHT or LEFT subtree)
+    hangs = list(W9.all_shapes_upto(3))
+    for j, h in enumerate(hangs):
+        for side in ("L", "R"):
+            if cfg.mine(j * 2 + (side == "R")):
+                big.append(W9.comb(rng.choice([260, 300, 380]), side, h))
     for s in big:
         if cfg.out_of_time():
             rec.truncated = True
@@ -387,7 +394,8 @@ def run(rec, cfg):
     from mathy_core.parser import ExpressionParser
 
     p = ExpressionParser()
-    for t in ("4x^2 + 2y - 7 = -(3 + z)!", "sgn(-x) * (a + b)(c - d) / 2^k", "-(-(x))", "5!", "((a + b) + c) + d"):
+    long_unary = "x + -y + " + " + ".join(["1"] * 170) + " + -z + sgn(w) + 3! + " + " + ".join(["2"] * 170)
+    for t in ("4x^2 + 2y - 7 = -(3 + z)!", "sgn(-x) * (a + b)(c - d) / 2^k", "-(-(x))", "5!", "((a + b) + c) + d", long_unary):
         try:
             drive_tree(rec, p.parse(t), "expr", rng, full_stops=True)
             rec.arm("shapes:parsed")
